@@ -134,6 +134,9 @@ type LivePlan struct {
 
 	Reenc *ReencPlan `json:"reenc,omitempty"`
 
+	// SlowWriteReturnMs (forwarding topology): the front's first writes towards
+	// the client return this much later than the bytes leave.
+	SlowWriteReturnMs int `json:"slow_write_return_ms,omitempty"`
 	// NoCCS: the client does not use middlebox compatibility mode (RFC 8446,
 	// D.4: optional): its change_cipher_spec records never reach the wire.
 	NoCCS bool `json:"no_ccs,omitempty"`
@@ -228,6 +231,8 @@ type liveWorld struct {
 	res    *core.Result
 	mu     sync.Mutex
 	hello  [](*tls.ClientHelloInfo)
+	// slowWrites counts connections whose front writes return late
+	slowWrites int
 }
 
 func (lw *liveWorld) guard(o *connObs, where string, f func()) {
@@ -364,6 +369,20 @@ func (lw *liveWorld) runConn(n int, ccfg *tls.Config) *connObs {
 				o.backendErr = serve(s, o)
 				s.Close()
 				return
+			}
+			if sc, ok := fc.(*simnet.Conn); ok && p.SlowWriteReturnMs > 0 {
+				// the first writes towards the client return late: the record is on
+				// its way, the goroutine that wrote it gets the processor back only
+				// after the client has answered
+				k := 0
+				sc.WriteHook = func(int) {
+					if k++; k <= 4 {
+						time.Sleep(time.Duration(p.SlowWriteReturnMs) * time.Millisecond)
+					}
+				}
+				lw.mu.Lock()
+				lw.slowWrites++
+				lw.mu.Unlock()
 			}
 			fb, bc := w.Pipe("f"+tag, "b"+tag, p.FB, p.BF)
 			fbLink, bfLink = fb.Out(), bc.Out()
@@ -625,6 +644,9 @@ func executeLive(t *testing.T, prop string, seed uint64, p *LivePlan) *core.Resu
 				res.Probe("hrr_seen")
 				if o.ccsDropped > 0 {
 					res.Probe("hrr_client_without_compat_ccs")
+				}
+				if lw.slowWrites > 0 {
+					res.Probe("hrr_write_returns_late")
 				}
 			}
 			if o.clientState.CurveID == tls.X25519MLKEM768 {
